@@ -573,7 +573,12 @@ class Cluster:
         # Check the hash before the version update.
         if hash(self._config.json()) != self._config_hash:
             self._config.version += 1
-            self._serialize_config_version()
+            try:
+                self._serialize_config_version()
+            except Exception:
+                # Nothing was written: keep the in-memory version equal to the one on disk.
+                self._config.version -= 1
+                raise
             text = self._config.json()
             self._config_hash = hash(text)
             self._serialize_file(self._config.json(), self._config_file)
@@ -594,7 +599,12 @@ class Cluster:
         # Check the hash before the version update.
         if hash(self._job_status.json()) != self._config_hash:
             self._job_status.version += 1
-            self._serialize_job_status_version()
+            try:
+                self._serialize_job_status_version()
+            except Exception:
+                # Nothing was written: keep the in-memory version equal to the one on disk.
+                self._job_status.version -= 1
+                raise
             text = self._job_status.json()
             self._serialize_file(text, self._job_status_file)
             self._job_status_hash = hash(text)
